@@ -198,6 +198,50 @@ func checkMTCP(p *core.Program, r *core.Report) {
 	}
 	hdr, un := hdrs[0].(*ssa.Call), uns[0].(*ssa.Call)
 	sameReader := core.Strip(core.Arg(hdr, 0)) == core.Strip(core.Arg(un, 1))
+	// or: the bundle is parsed from a reader limited to the announced length of the same buffered reader, and what the
+	// parser left of the frame is drained before the next header is read (the stream stays aligned whatever the parser
+	// consumed, and a bundle the parser refuses does not take the following frames with it)
+	bounded := false
+	if lr, ok := core.Strip(core.Arg(un, 1)).(*ssa.Call); ok && core.CalleeName(lr) == "io.LimitReader" {
+		fromHdr := core.DependsOn(core.Arg(lr, 1), func(v ssa.Value) bool {
+			ex, ok := v.(*ssa.Extract)
+			return ok && ex.Tuple == ssa.Value(hdr) && ex.Index == 0
+		})
+		drained, _ := core.MustPassAfter(un, func(i ssa.Instruction) bool {
+			c, ok := i.(*ssa.Call)
+			if !ok {
+				return false
+			}
+			n := core.CalleeName(c)
+			return (n == "io.Copy" || n == "io.CopyN") && core.Strip(core.Arg(c, 1)) == ssa.Value(lr)
+		}, func(i ssa.Instruction) bool { return core.IsReturn(i) || i == ssa.Instruction(hdr) })
+		if core.Strip(core.Arg(lr, 0)) == core.Strip(core.Arg(hdr, 0)) && fromHdr && drained {
+			sameReader, bounded = true, true
+		}
+	}
+	r.Check(bounded, "mtcp/"+fname(hs)+"/frame-bounded", "the server parses a bundle from exactly the bytes the frame header announced and drains what the parser left, so that a bundle its validating parser refuses neither misaligns the stream nor forces the connection to be dropped with the following frames unread", p.Pos(un.Pos()), "", "the parser reads the connection's reader directly: after a refused bundle the position in the stream is unknown, the connection has to be closed and the bundles sent behind it are lost although their Send returned nil")
+	if bounded {
+		// a refused bundle is skipped: from the parser's failure the loop goes on to the next header
+		okSkip := false
+		for _, blk := range hs.Blocks {
+			ifi, isIf := blk.Instrs[len(blk.Instrs)-1].(*ssa.If)
+			if !isIf {
+				continue
+			}
+			x, isNil, ok := core.NilCmp(core.Cond{V: ifi.Cond, True: true})
+			if !ok || core.Strip(x) != ssa.Value(un) {
+				if ld, isLd := x.(*ssa.UnOp); !ok || !isLd || !storedFrom(ld.X, un) {
+					continue
+				}
+			}
+			fail := blk.Succs[0]
+			if isNil {
+				fail = blk.Succs[1]
+			}
+			okSkip, _ = core.MustPassAfter(fail.Instrs[0], func(i ssa.Instruction) bool { return i == ssa.Instruction(hdr) }, core.IsReturn)
+		}
+		r.Check(okSkip, "mtcp/"+fname(hs)+"/skips-unacceptable", "a frame whose bytes are not an acceptable bundle (e.g. lifetime ended by this node's clock) is skipped and the connection keeps serving the frames behind it", p.Pos(un.Pos()), "", "the parser's failure leads to a return: the bundles already sent behind the refused one are lost although their Send returned nil")
+	}
 	okB := core.TypeIs(core.Strip(core.Arg(un, 0)).Type(), bp7, "Bundle")
 	// Unmarshal reached only with header ok and n != 0
 	conds := core.DominatingConds(un.Block())
@@ -916,4 +960,19 @@ func checkBBC(p *core.Program, r *core.Report) {
 		}
 	})
 	r.Check(okMtu, "bbc/"+fname(npt)+"/payload-mtu", "the per-fragment payload size is the modem's MTU minus the 2 header bytes", p.Pos(npt.Pos()), "", "mtu is not reduced by fragmentIdentifierSize")
+}
+
+
+// storedFrom: addr is a local cell into which v is stored (err = call(...)).
+func storedFrom(addr ssa.Value, v ssa.Value) bool {
+	a, ok := addr.(*ssa.Alloc)
+	if !ok {
+		return false
+	}
+	for _, ref := range *a.Referrers() {
+		if st, ok := ref.(*ssa.Store); ok && st.Val == v {
+			return true
+		}
+	}
+	return false
 }
